@@ -2,7 +2,7 @@
 # Regenerates DESIGN.md section 9 from seeded/*/meta.json and seeded/strengthening_notes.json.
 import json,glob,os
 notes=json.load(open('/verif/seeded/strengthening_notes.json'))
-rows=[]; n=0; det=0; first=0
+rows=[]; n=0; det=0; first=0; other=0; outside=0
 for m in sorted(glob.glob('/verif/seeded/C*-*/meta.json')):
     j=json.load(open(m)); name=os.path.basename(os.path.dirname(m)); n+=1
     t=(j.get('needs_to_manifest') or '').strip().split('\n')
@@ -11,7 +11,9 @@ for m in sorted(glob.glob('/verif/seeded/C*-*/meta.json')):
     qc=j.get('quick_checks',{})
     d=', '.join(sorted(k for k,v in qc.items() if v=='detected'))
     if name.split('-')[0] in [k for k,v in qc.items() if v=='detected']: det+=1
-    if name in notes: st='after strengthening: '+notes[name]
+    elif d: other+=1
+    if j.get('outside_claim'): st='not reported, correctly: '+j['outside_claim']; outside+=1
+    elif name in notes: st='after strengthening: '+notes[name]
     else: st='first run'; first+=1
     if j.get('rebased'): st+=' (patch re-based, see meta.json)'
     rows.append('| %s | %s | %s | %s |'%(name,f,d,st))
@@ -25,19 +27,27 @@ pass in every case: the defects were invisible to them), runs the quick check of
 named in §7 and expects exit 1 with a VIOLATION line, then restores /repo. Result: every revert
 is detected (`selftest/revert_report.txt`).
 
-**(b) %d changes written by independent sub-agents** in three rounds. Each agent received only
+**(b) %d changes written by independent sub-agents** in five rounds of 40. Each agent received only
 the text of one property and a scratch worktree (nothing from /verif; from round 2 on also a
-two-line summary of the ideas already used for that property, so that it would look elsewhere)
-and produced changes that compile, pass the 38 existing tests, break the property, and need
-something specific to manifest; each came with a demonstration test. I re-confirmed every one
-in a scratch worktree (suite passes with the change, demo fails with it, demo passes without
-it) before keeping it as `/verif/seeded/<id>-<k>/` (`patch.diff`, `demo_test.go`, `notes.md`,
-`meta.json`). Detected by the property's quick check as it stood when the seed arrived:
-round 1 27/40, round 2 23/40, round 3 29/40 (%d of %d overall). Every miss was analysed and the
-check strengthened *in general terms* (a new family, alphabet member, leg or oracle, never a
+two-line summary of the ideas already used for that property, so that it would look elsewhere;
+in round 5 also the request to make the change correct for every input of normal size and wrong
+only far outside) and produced changes that compile, pass the 38 existing tests, break the
+property, and need something specific to manifest; each came with a demonstration test. I
+re-confirmed every one in a scratch worktree (suite passes with the change, demo fails with it,
+demo passes without it) before keeping it as `/verif/seeded/<id>-<k>/` (`patch.diff`,
+`demo_test.go`, `notes.md`, `meta.json`). Detected by the property's quick check as it stood
+when the seed arrived: round 1 27/40, round 2 23/40, round 3 29/40, round 4 25/40, round 5
+12/40 (116 of 200 overall) - the agents were told what had been tried, so each round looked
+where the checks had not yet been shown to look. Every miss was analysed and the check
+strengthened *in general terms* (a new family, alphabet member, leg or oracle, never a
 special case for the seed); after that %d of %d are detected by the quick check of the
-property they break, and the unchanged tree stays silent. `tools/seed_all.sh` re-runs the
-whole table in a scratch mirror (`/tmp/ev`, so /repo and /verif/evidence are not touched).
+property they break, %d more by the check of another property whose business they really are
+(a defect that only shows between goroutines, or only in the second evaluation of a process,
+is C09's or C08's to report whichever property the agent was given), and %d is correctly not
+reported because it breaks no listed property. The unchanged tree stays silent.
+`tools/seed_all.sh` re-runs the whole table in a scratch mirror (`/tmp/ev`, so /repo and
+/verif/evidence are not touched); patches that touch lines changed by later `fix:` commits
+were re-based (the delivered patch is kept as `patch.orig.diff`).
 
 | seed | what it does | detected by (quick) | when |
 |---|---|---|---|
@@ -54,14 +64,21 @@ data and cold trees in the interleaving exploration; inputs built around the one
 parser path; the literal at the very end of the input; exponent print forms; equal instants in
 different zones; evaluation order with spread; in-place truncation of arguments; tree mutation
 by the evaluator; NUL bytes and BOMs; extreme exponents and self-containing data (two more
-genuine defects, §7).
+genuine defects, §7); and, after rounds 4 and 5: unicode line terminators and BOMs in every
+gap; the same number in several spellings; the value a *later read* of a local sees; operands
+with side effects; computed operands classified by their observed value; state that accumulates
+on one runner over tens of thousands of calls (soak legs); data objects that live across
+evaluations; answers that depend on chance (determinism leg); locks left behind by error
+paths; keys spelled like keywords, with leading underscores, or differing only in case;
+parameter types that merely implement an interface; aliased but acyclic arguments;
+exponent-carrying zeros; trees returned together with an error.
 
 Not every conceivable change is caught: thresholds beyond the explored sizes (e.g. a limit
 that needs more than 16 x 600 nesting levels in flight), unsynchronised accesses between yield
 points that the sampled race pass happens not to hit, defects that need more than the stated
 token / node / history depth, and value-dependent branches on operands outside the grids remain
 outside the claim (see §6).
-''' % (n, first, n, det, n, '\n'.join(rows))
+''' % (n, det, n, other, outside, '\n'.join(rows))
 p='/verif/DESIGN.md'; s=open(p).read()
 i=s.index('## 9. Which checks catch which changes')
 rest=''
